@@ -128,16 +128,16 @@ def call(resolver, node, path, idm):
         return ("crash", "%s: %s" % (type(exc).__name__, exc))
 
 
-def check_tree(t, shape, names, maxcomp, only=None):
+def check_tree(t, shape, names, maxcomp, only=None, kind="user"):
     import anytree
 
     m = tree.Model.from_shape(shape)
-    nodes = tree.build(m, tree.default_factory("user"), "topdown", names=list(names))
+    nodes = tree.build(m, tree.default_factory(kind), "topdown", names=list(names))
     idm = tree.IdMap(nodes)
     sep = "/"
     pats = patterns_for(names, sep, maxcomp)
     res = {(ic, rx): anytree.Resolver("name", ignorecase=ic, relax=rx) for ic in (False, True) for rx in (False, True)}
-    ctx = {"shape": shape, "names": list(names)}
+    ctx = {"shape": shape, "names": list(names), "kind": kind}
     for start in range(m.n):
         t.c["states"] += 1
         pre_rank = {v: k for k, v in enumerate(m.pre(m.root(start)))}
@@ -196,9 +196,11 @@ def check_tree(t, shape, names, maxcomp, only=None):
 
 def job(items):
     t = core.Tally()
-    for shape, names, maxcomp in items:
-        core.guard(t, "C08", {"engine": "E2", "module": MOD, "part": "semantics", "shape": shape, "names": list(names)},
-                   check_tree, t, shape, names, maxcomp)
+    for item in items:
+        shape, names, maxcomp = item[:3]
+        kind = item[3] if len(item) > 3 else "user"
+        core.guard(t, "C08", {"engine": "E2", "module": MOD, "part": "semantics", "shape": shape, "names": list(names), "kind": kind},
+                   check_tree, t, shape, names, maxcomp, None, kind)
     return t
 
 
@@ -333,7 +335,7 @@ def replay(c):
         got = idm.seq(out)
         print("history:", hist, "observed:", got, "expected:", sorted(exp))
         return ["glob result depends on earlier calls"] if set(got) != exp or len(set(got)) != len(got) else []
-    check_tree(t, _tup(c["shape"]), tuple(c["names"]), 3, (c["start"], c["path"], c["ignorecase"]))
+    check_tree(t, _tup(c["shape"]), tuple(c["names"]), 3, (c["start"], c["path"], c["ignorecase"]), c.get("kind", "user"))
     return [v["why"] for v in t.violations]
 
 
@@ -346,6 +348,12 @@ def plan(tier):
             for s in tree.plane_trees(n):
                 for names in itertools.product(alphabet, repeat=n):
                     items.append((s, names, maxcomp))
+    # node classes with their own truth value / value semantics
+    for kind in ("falsy", "eqhash", "falsylight"):
+        for n in range(1, 4 if tier == "quick" else 5):
+            for s in tree.plane_trees(n):
+                for names in itertools.product(("a", "A", "b"), repeat=n):
+                    items.append((s, names, 2, kind))
     return items
 
 
